@@ -13,7 +13,7 @@ import typing
 import warnings
 from collections import defaultdict
 
-from .. import e2e, guard
+from .. import e2e, guard, realcall
 from ..common import Rng, hx, unhx
 from ..runner import Check
 from ..translate import graphql_tables
@@ -218,19 +218,27 @@ def campaign_object_like(ck: Check, n: int) -> None:
     camp = ck.campaign("Graphql.parseObjectLike vs GraphQLParser.parse_object_like (members, __typename member, bases)")
     t0 = time.time()
     rng = ck.rng.fork("object_like")
-    import graphql
-    from datamodel_code_generator.parser.graphql import build_graphql_schema
-
     cases = []
     for _ in range(n):
-        n_if = rng.below(3)
+        n_if = rng.below(4)
         ifs = [f"I{j}" for j in range(n_if)]
         if_fields = {i: [(f"f_{i.lower()}{k}", rand_gtype(rng, OUT_NAMES, 2)) for k in range(rng.range(1, 2))] for i in ifs}
         own = [(f"f_{chr(97 + k)}", rand_gtype(rng, OUT_NAMES, 2)) for k in range(rng.below(4))]
         kw = rng.choice(["type", "type", "interface", "input"])
         if kw == "input":
             ifs, own = [], [(nm, rand_gtype(rng, IN_NAMES, 2)) for nm, _ in own] or [("f_a", ("n", "Int"))]
-        fields = own + [f for i in ifs for f in if_fields[i]]
+        shared = []
+        if len(ifs) >= 2 and rng.chance(3, 4):
+            # the same field declared by several interfaces with different nullability; T declares the strongest
+            # type, and one interface (first / last / any / none) declares it exactly like T
+            for k in range(rng.range(1, 2)):
+                own_t = rand_gtype(rng, OUT_NAMES, 2)
+                exact = rng.choice([ifs[0], ifs[-1], rng.choice(ifs), None])
+                for i in rng.sample(ifs, rng.range(2, len(ifs))):
+                    if_fields[i].append((f"f_s{k}", own_t if i == exact else c17_fields.weaken(rng, own_t)))
+                shared.append((f"f_s{k}", own_t))
+        seen_names = {nm for nm, _ in shared}
+        fields = own + shared + [f for i in ifs for f in if_fields[i] if f[0] not in seen_names]
         if not fields:
             fields = [("f_a", ("n", "Int"))]
         fields = rng.shuffle(fields)
@@ -244,16 +252,25 @@ def campaign_object_like(ck: Check, n: int) -> None:
     reqs, metas = [], []
     for sdl, kw, fo in cases:
         # graphql-core is a parameter of the model: field order and interface order as it reports them
-        gobj = build_graphql_schema(sdl).type_map["T"]
+        schema = c17_fields._real_schema(ck, camp, sdl)  # noqa: SLF001
+        if schema is None:
+            reqs.append("gql.wf (n x)")
+            metas.append(None)
+            continue
+        gobj = schema.type_map["T"]
         gfields = [(nm, of_graphql(f.type)) for nm, f in gobj.fields.items()]
         gifs = [i.name for i in getattr(gobj, "interfaces", [])]
         reqs.append(
             f"gql.object {int(fo)} {hx('T')} (" + " ".join(f"({hx(a)} {gt_sx(b)})" for a, b in gfields) + ") ("
             + " ".join(hx(i) for i in gifs) + ")"
         )
-        metas.append((gfields, gifs))
+        clash = any(sum(nm in i.fields for i in getattr(gobj, "interfaces", ())) >= 2 for nm, _ in gfields)
+        metas.append((gfields, gifs, clash))
     replies = ck.driver.run(reqs)
-    for (sdl, kw, fo), rep, (gfields, gifs) in zip(cases, replies, metas):
+    for (sdl, kw, fo), rep, meta in zip(cases, replies, metas):
+        if meta is None:
+            continue
+        gfields, gifs, clash = meta
         camp.evaluations += 1
         camp.hit(f"kind:{kw}")
         camp.hit(f"interfaces:{len(gifs)}")
@@ -269,21 +286,51 @@ def campaign_object_like(ck: Check, n: int) -> None:
                 m_members.append(("field", unhx(mm[1]), mm[2] == "1", dt_of_sx(mm[3])))
             else:
                 m_members.append(("typename", unhx(mm[1])))
-        p = real_parser(sdl, force_optional_for_required_fields=fo)
-        r = result_named(p, "T")
-        i_members = []
-        for f in r.fields:
-            if f.alias == "__typename":
-                ok = f.name == "typename__" and f.required is False and f.default == f.data_type.literals[0] and len(f.data_type.literals) == 1
-                i_members.append(("typename", f.data_type.literals[0]) if ok else ("odd-typename", f.name, f.default))
-            else:
-                i_members.append(("field", f.name, bool(f.required), dump_dt(f.data_type)))
-        i_bases = [b.reference.name for b in r.base_classes if b.reference is not None]
+        camp.hit("field_declared_by_several_interfaces" if clash else "no_shared_interface_field")
+
+        def dump_class(r):
+            i_members = []
+            for f in r.fields:
+                if f.alias == "__typename":
+                    ok = f.name == "typename__" and f.required is False and f.default == f.data_type.literals[0] and len(f.data_type.literals) == 1
+                    i_members.append(("typename", f.data_type.literals[0]) if ok else ("odd-typename", f.name, f.default))
+                else:
+                    i_members.append(("field", f.name, bool(f.required), dump_dt(f.data_type)))
+            return [b.reference.name for b in r.base_classes if b.reference is not None], i_members
+
+        inp = {"sdl": sdl, "force_optional": fo}
+        p = r = None
+        with realcall.guard(ck, camp, "GraphQLParser(source=…, force_optional_for_required_fields=…).parse_raw()", inp):
+            p = real_parser(sdl, force_optional_for_required_fields=fo)
+            r = result_named(p, "T")
+        if r is None:
+            if p is not None:
+                ck.disagree(camp, inp, (m_bases, m_members), "no class T among the results")
+            continue
+        impl = None
+        with realcall.guard(ck, camp, "the DataModel parse_object_like builds (fields, base_classes)", inp):
+            impl = dump_class(r)
+        if impl is None:
+            continue
         camp.distinct.add(sdl)
-        if (m_bases, m_members) != (i_bases, i_members):
-            ck.disagree(camp, {"sdl": sdl, "force_optional": fo}, (m_bases, m_members), (i_bases, i_members))
-        elif len(camp.samples) < 2 and gifs:
-            camp.samples.append({"sdl": sdl, "bases": i_bases, "members": [m[:2] for m in i_members]})
+        if (m_bases, m_members) != impl:
+            ck.disagree(camp, inp, (m_bases, m_members), impl)
+            continue
+        if len(camp.samples) < 2 and gifs:
+            camp.samples.append({"sdl": sdl, "bases": impl[0], "members": [m[:2] for m in impl[1]]})
+        # parse_object_like itself, called directly on the parser's own graphql-core object
+        objs = realcall.resolve(ck, camp, p, "all_graphql_objects", "GraphQLParser.all_graphql_objects") or {}
+        fn = realcall.resolve(ck, camp, p, "parse_object_like", "GraphQLParser.parse_object_like")
+        if "T" in objs and fn is not None:
+            before = len(p.results)
+            ok, _ = realcall.call(ck, camp, "GraphQLParser.parse_object_like(obj)", fn, objs["T"], _case=inp)
+            if ok:
+                camp.hit("direct_call")
+                got = None
+                with realcall.guard(ck, camp, "the DataModel parse_object_like builds (fields, base_classes)", inp):
+                    got = dump_class(p.results[-1]) if len(p.results) == before + 1 else ("results grew by", len(p.results) - before)
+                if got is not None and got != (m_bases, m_members):
+                    ck.disagree(camp, {**inp, "what": "parse_object_like called directly"}, (m_bases, m_members), got)
     camp.wall_s = time.time() - t0
 
 
@@ -1005,8 +1052,8 @@ def run(ck: Check) -> None:
     ck.c17_obs = []
     me = sys.modules[__name__]
     guard.campaign(ck, c17_fields.campaign_defaults, me, 14 if quick else 120, 30)
-    guard.campaign(ck, c17_fields.campaign_defaults_e2e, me, 10 if quick else 120)
-    guard.campaign(ck, c17_fields.campaign_clash, me, 16 if quick else 240)
+    guard.campaign(ck, c17_fields.campaign_defaults_e2e, me, 30 if quick else 300)
+    guard.campaign(ck, c17_fields.campaign_clash, me, 40 if quick else 400)
     guard.campaign(ck, c17_order.campaign_family, me, quick)
     guard.campaign(ck, c17_order.campaign_all_orders, me, quick)
     guard.campaign(ck, campaign_e2e, 150 if quick else 1200, 2)
